@@ -181,6 +181,20 @@ PROPS = {
         technique="Lean 4 proof by exhaustive case analysis over a table regenerated from source (T2)",
         design_ref="DESIGN.md section 4 C10",
     ),
+    "C03": dict(
+        module="YkProps.C03",
+        leancheck=['YkModel.CoreState', 'YkModel.CoreOps', 'YkProofs.Core', 'YkProps.C03'],
+        runs=[dict(comp="core", quick=240, thorough=6000)],
+        classify=cls_tagged("C03"),
+        nontrivial=lambda line: '"op":"reset"' not in line,
+        rule='core: random histories (30..120 operations) on a real ClusterContext driven synchronously through hooks: node create/create-drain/update/drain/undrain/decommission, application add (plain and gang, several users, static and dynamic queues, duplicate ids) / remove, asks (plain, placeholder, task groups, required node, priorities), RM-placed allocations, in-place resizes, foreign allocations add/update/remove, releases by key and of whole applications, scheduling cycles (predicate plugin denying some (ask,node) pairs, reservation delay 0, preemption on), placeholder and state timers fired explicitly, shim confirmations (PLACEHOLDER_REPLACED / TIMEOUT / PREEMPTED) delivered immediately, late, twice or never; 60% of the histories end by releasing and removing everything (drain). After every operation the complete state (nodes, queues, applications with asks/allocations, counters, user/group trackers) and the messages sent to the shim are dumped; the driver evaluates every clause on the dump, the per-step clauses against the previous dump, the shim protocol automaton on the messages, and steps the Core model from the previous dump for the modelled operations. non-trivial = not a reset line; distinct = distinct protocol lines',
+        trusted=['one partition; the harness calls the handler functions of ClusterContext directly (what RMProxy/Scheduler event loops would call) from a single goroutine', 'the asynchronous terminated-application callback is awaited (settle) before the state is dumped', "scheduler decisions (which ask, which node) are taken from the core's own announcements, not predicted"],
+        assumptions=[],
+        level_text="Lean 4 proofs about the protocol automaton (YkModel/Shim.lean) that the driver runs on the SI traffic recorded from the real core: in every view reached by an accepted trace bound keys are pairwise distinct and disjoint from the outstanding asks (exactly-once), a new allocation is accepted iff it is for an outstanding ask of an accepted application on a registered node with an unbound key (or the one echo of a shim-reported placement), a release iff the key is bound or outstanding (repeatable while unconfirmed), answers only to pending submissions, a rejection leaves no trace. The core's traffic is judged by `ShimView.step = none`.",
+        level_note='trusted: Lean kernel; hand-written models tied by correspondence / monitors on the real core only; exact arithmetic; single partition, single goroutine',
+        technique='Lean 4 invariant proof over a stepped ledger model + one-step refinement correspondence and monitors on the real core',
+        design_ref='DESIGN.md section 4 C03',
+    ),
     "C04": dict(
         module="YkProps.C04",
         leancheck=['YkModel.Shim', 'YkProofs.Shim', 'YkProps.C04'],
